@@ -4,7 +4,7 @@
               datenum_to_date, get_date(+-step): mutually inverse and equal to an integer-arithmetic calendar
  buckets      EVERY day 1970 .. 2100 x {00:00:00, 06:00, 23:59:59}: the 8 time-bucket functions of verif.axis;
               every lead time 0..72 h in steps of 1/4 h for leadtimeday
- datasets     init times = every subset of size <= 3 (thorough 4) of 16 boundary instants (year end, leap day, Feb 28/Mar 1 in leap
+ datasets     init times = every subset of size <= 3 (thorough 4) of 18 boundary instants (year end, leap day, Feb 28/Mar 1 in leap
               and non-leap years, Sunday 23 h / Monday 0 h, month ends, 1970-01-01, 2038, 2100), 3 lead times (0, 23, 24), 2 stations,
               partly missing: all axes through get_axis_values / get_scores(axis, i) and through -x <axis> -agg count -type csv
 Oracle: mc/ref/calendar.py (civil-from-days arithmetic, independent of datetime) and mc/ref/dataset.py.
@@ -38,7 +38,9 @@ def ut(y, m, d, hh=0, mm=0, ss=0):
 
 INSTANTS = [ut(1970, 1, 1), ut(1999, 12, 31, 23), ut(2000, 1, 1), ut(2000, 2, 28, 12), ut(2000, 2, 29), ut(2000, 3, 1),
             ut(2001, 2, 28, 23), ut(2001, 3, 1), ut(2012, 12, 30, 23), ut(2012, 12, 31), ut(2013, 1, 1, 6), ut(2013, 3, 31, 12),
-            ut(2016, 2, 29, 18), ut(2038, 1, 19, 3), ut(2100, 2, 28), ut(2100, 3, 1, 12)]
+            ut(2016, 2, 29, 18), ut(2038, 1, 19, 3), ut(2100, 2, 28), ut(2100, 3, 1, 12),
+            # initialisation times that are not on the hour (time of day 0.5 h and 6.75 h, next to 0 h and 6 h above)
+            ut(2000, 2, 29) + 1800, ut(2013, 1, 1, 6) + 2700]
 
 
 def h_conversions(ctx):
@@ -300,8 +302,8 @@ def run(tier, only=None):
         t0 = time.time()
         st = explore.explore(h, mode="full", params=params, repo_root=core.REPO)
         bound = {"conversions": "every day of every year 1900..2100 (one execution per year)", "buckets": "every day of every year 1970..2100 x 3 times of day (one execution per year)",
-                 "leadtimeday": "every lead time 0..72 h step 1/4 h", "datasets": "every subset of size <= %d of 16 boundary instants x {no filter, -d, -tod of the latest instant} x 15 axes" % (3 if tier == "quick" else 4),
-                 "datasets-cli": "every subset of size <= %d of 16 boundary instants x 15 axes through the driver" % (2 if tier == "quick" else 3)}[name]
+                 "leadtimeday": "every lead time 0..72 h step 1/4 h", "datasets": "every subset of size <= %d of 18 boundary instants x {no filter, -d, -tod of the latest instant} x 15 axes" % (3 if tier == "quick" else 4),
+                 "datasets-cli": "every subset of size <= %d of 18 boundary instants x 15 axes through the driver" % (2 if tier == "quick" else 3)}[name]
         subs.append(core.Sub.from_e1(name, st, bound=bound, rule="non-trivial = more than one init time / every year", min_outcomes=1,
                                      required_flags=("cyclic-recurrence", "filtered") if name == "datasets" else (), wall=time.time() - t0))
     return subs
